@@ -128,7 +128,7 @@ def run(tier):
     return c.finish(rule='one trace = one molecule put through the consensus writer (API call or one molecule of a command-line run); '
                          'all records of that molecule are judged together',
                     extra_cov={'distinct_nontrivial': len(set(json.dumps(e['reads'], sort_keys=True) for e in ps)),
-                               'via': {v: sum(1 for e in ps if e['via'] == v) for v in ('api', 'api_hist', 'cli', 'cli_nosrc')},
+                               'via': {v: sum(1 for e in ps if e['via'] == v) for v in ('api', 'api_hist', 'crd', 'cli', 'cli_nosrc')},
                                'records': sum(len(e.get('records', [])) for e in ps),
                                'molecules_with_minority_umis': sum(1 for e in ps if len(set(e['umis'])) > 1),
                                'molecules_written_through_write_pysam': sum(1 for e in ps if e.get('wp')),
